@@ -95,8 +95,13 @@ def messages(p, level):
             out.append(("int", pat))
     for m in ((0, 1), (1, 1, 0), (1, 0, 1, 1, 0)):
         out.append(("bool", m))
-    for m in ((1,), (3, 2)):
-        out.append(("fxp", m))
+    for m in ((1,), (3, 2), (3, 2, 1, 5, 7), (1, 2, 3, 4, 5, 6, 7, 8, 9)):
+        out.append(("fxp", m))          # fixed-point wires in the second and third sponge block as well
+    for m in ((1, 0, 1, 1, 0, 1, 1, 0, 0),):
+        out.append(("bool", m))
+    # messages mixing wire types (element k: integer, fixed point, boolean in turn), one to three blocks
+    for m in ((5, 3, 1), (5, 3, 1, 7, 2, 0), (2, 1, 1, 4, 3, 0, 6, 5, 1, 8)):
+        out.append(("mixed", m))
     return out
 
 
@@ -145,6 +150,15 @@ def _task(t):
         elif typ == "bool":
             inp = [H.boolean.PrivValBool(v) for v in msg]
             plain = list(msg)
+        elif typ == "mixed":
+            inp, plain = [], []
+            for k_, v in enumerate(msg):
+                if k_ % 3 == 0:
+                    inp.append(rt.PrivVal(v)); plain.append(v)
+                elif k_ % 3 == 1:
+                    inp.append(H.fixedpoint.PrivValFxp(v)); plain.append(v * 4)
+                else:
+                    inp.append(H.boolean.PrivValBool(v)); plain.append(v)
         else:
             inp = [H.fixedpoint.PrivValFxp(v) for v in msg]
             plain = [v * 4 for v in msg]
@@ -163,7 +177,7 @@ def _task(t):
             if len(H.R.cons) - c1 != c1:
                 bad("second-hash-different-constraint-count", "first hash %d constraints, second %d" % (c1, len(H.R.cons) - c1))
             del H.R.cons[c1:]
-        ncons = (len(msg) // 4, len(H.R.cons) - (len(msg) if typ == "bool" else 0))
+        ncons = (len(msg) // 4, len(H.R.cons) - (len(msg) if typ == "bool" else (len(msg[2::3]) if typ == "mixed" else 0)))
         trace_key = ("sponge", typ, len(msg))
         st["transitions"] += len(H.R.cons)
         st["compared"] += 1
